@@ -20,9 +20,10 @@ RULE = ('histories of up to 70 operations on a full in-process client (real cond
 ASSUMPTIONS = [
     'the capacity arithmetic of the command ring is C06\'s: here the ring either has room (the harness drains it after every operation) or, between SetRingFull true / false, refuses every command; strings fit the 512-byte scratch buffer (C13)',
     'driver events are well formed: ASCII strings, counter ids inside the counters buffer, an existing log file with legal geometry, '
-    'exclusive-publication answers carry registration id = correlation id; error code 4 (channel endpoint) is not generated',
+    'exclusive-publication answers carry registration id = correlation id; an ErrorResponse with error code 4 (channel endpoint error) carries a channel status indicator id in its correlation-id field (generated: ids of live resources, other ids, ids that only agree as i32)',
     'callbacks do not call back into the client; the clock stays below 2^62 and above the linger time-out (C11/C12)',
-    'find_exclusive_publication is pub(crate): exclusive publications are exercised through add, answers and close only',
+    'find_exclusive_publication is pub(crate): it is reached through the add-only hook ClientConductor::find_exclusive_publication_for_verif '
+    '(hooks/cond-find-exclusive.diff); while the repository lacks the hook exclusive publications are exercised through add, answers and close only',
 ]
 TRUSTED = ['harness/c09 encodes driver events by hand from the flyweight layouts (checked by C14) and decodes commands from the layouts of C13']
 
@@ -40,6 +41,18 @@ impl_line = cc.impl_line
 model_expr = cc.model_expr
 shrink = cc.shrink
 normalize = cc.normalize
+
+
+def extra_checks(run):
+    import os
+    import re
+    from vlib import core
+    # K1-command-buffer: the private constant behind Conductor.CMD_BUF and the strictness of ensure_command_fits, re-read from the source
+    src = re.sub(r'\s+', ' ', open(os.path.join(core.REPO, 'src', 'driver_proxy.rs')).read())
+    ok = 'const COMMAND_BUFFER_LENGTH: usize = 512;' in src and 'if encoded_length > COMMAND_BUFFER_LENGTH {' in src
+    return [cc.hook_note(),
+            (ok, 'K1-command-buffer', 'driver_proxy.rs: COMMAND_BUFFER_LENGTH = 512, ensure_command_fits refuses encoded_length > 512 (model: CMD_BUF, add_illegal)'
+             if ok else 'COMMAND_BUFFER_LENGTH / ensure_command_fits changed: Conductor.add_illegal no longer describes the source')]
 
 
 def oracle_expr(case, mode, obs):
